@@ -64,6 +64,10 @@ def createGuard (r : CreateReq) : Bool := r.space < 3 && r.dim != 0 && r.parts !
 def create (members : Nat) (r : CreateReq) : Out × Option Ds :=
   if createGuard r then (.ok, some ⟨r.dim, r.parts, min r.repl members, true, 0⟩) else (.err, none)
 
+/-- the enum travels as a signed 32-bit integer: the known values are exactly 0, 1, 2 (`pb.Space_name`) -/
+def createInt (members : Nat) (dim parts repl : Nat) (space : Int) : Out × Option Ds :=
+  if 0 ≤ space then create members ⟨dim, parts, repl, space.toNat⟩ else (.err, none)
+
 /-- the same request without the guard (the code before the fix) -/
 def createUnguarded (members : Nat) (r : CreateReq) : Ds :=
   ⟨r.dim, r.parts, min r.repl members, r.space < 3, 0⟩
